@@ -28,18 +28,32 @@ package dhcpd
 //@ guarded v4Server.leasedOffsets by leasesLock
 
 // Helpers that work on the lease table and expect the table lock to be held by the caller.
+// findLease: the lease found is a lease of the table with that hardware address; none found means no lease has it.
 //@ func (s *v4Server) findLease(mac net.HardwareAddr) (l *dhcpsvc.Lease)
+//@   property C10
 //@   requires held(s.leasesLock)
-//@   modifies *
+//@   requires indexed(s)
+//@   ensures found-in-table: l != nil ==> (l.IP in s.ipIndex) && s.ipIndex[l.IP] == l && str(mac) == str(l.HWAddr) && amark(l.IP)
+//@   ensures none: l == nil ==> (forall k int :: {mark(k)} 0 <= k && k < len(s.leases) ==> str(mac) != str(s.leases[k].HWAddr))
+//@   modifies nothing
+//@   loop 1 invariant forall k int :: {mark(k)} 0 <= k && k < #i ==> str(mac) != str(s.leases[k].HWAddr)
 //@ func (s *v4Server) findExpiredLease() (r0 int)
 //@   requires held(s.leasesLock)
 //@   modifies *
 //@ func (s *v4Server) nextIP() (r0 net.IP)
 //@   requires held(s.leasesLock)
 //@   modifies *
+//@ func normalizeHostname(hostname string) (norm string, err error)
+//@   pure-function
+//@   modifies nothing
+// validateStaticLease: an accepted address is free or held by a lease of the same client (whatever that lease's kind
+// or expiry: an expired lease still occupies its row of the table).
 //@ func (s *v4Server) validateStaticLease(l *dhcpsvc.Lease) (err error)
+//@   property C10
 //@   requires held(s.leasesLock)
-//@   modifies *
+//@   requires tableMaps(s)
+//@   ensures address-free-or-own: err == nil ==> amark(l.IP) && (!(l.IP in s.ipIndex) || macEq(s.ipIndex[l.IP], l))
+//@   modifies l.Hostname, lastNow
 //@ func (s *v4Server) commitLease(l *dhcpsvc.Lease, hostname string)
 //@   requires held(s.leasesLock)
 //@   modifies *
@@ -89,6 +103,18 @@ package dhcpd
 //@ define noDup(s *v4Server) bool = forall j int, k int :: 0 <= j && j < k && k < len(s.leases) ==> s.leases[j] != s.leases[k]
 //@ define backed(s *v4Server) bool = forall a netip.Addr :: (a in s.ipIndex) ==> (exists k int :: 0 <= k && k < len(s.leases) && s.leases[k].IP == a)
 //@ define wfTable(s *v4Server) bool = tableMaps(s) && indexed(s) && noDup(s) && backed(s)
+// (same hardware address = same bytes; bytes.Equal is specified as equality of the byte strings)
+//@ define macEq(a *dhcpsvc.Lease, b *dhcpsvc.Lease) bool = str(a.HWAddr) == str(b.HWAddr)
+// A client (hardware address) holds at most one lease of the table.  Stated over the address index (every row of the
+// table is indexed by its address and no row occurs twice, so two rows of one client would be two index entries).
+// amark(a) is always true; it is the instantiation pattern of the two facts below and also occurs in their bodies, so
+// that they are used exactly at the addresses a proof names (they never feed the solver's instantiation loop).
+//@ declare amark(a netip.Addr) bool
+//@ axiom amark_true: forall a netip.Addr :: {amark(a)} amark(a)
+//@ define macUnique(s *v4Server) bool = forall a netip.Addr, b netip.Addr :: {amark(a), amark(b)} amark(a) && amark(b) && (a in s.ipIndex) && (b in s.ipIndex) && a != b ==> !macEq(s.ipIndex[a], s.ipIndex[b])
+//@ define macAbsent(s *v4Server, l *dhcpsvc.Lease) bool = forall a netip.Addr :: {amark(a)} amark(a) && (a in s.ipIndex) ==> !macEq(s.ipIndex[a], l)
+// lastRm: index handed to the most recent rmLeaseByIndex (lets rmLease say which row went without naming its loop variable).
+//@ ghost var lastRm int
 
 // addLease appends l and indexes it; bits are touched only for pool addresses; a failed add changes nothing.
 //@ func (s *v4Server) addLease(l *dhcpsvc.Lease) (err error)
@@ -101,6 +127,8 @@ package dhcpd
 //@   ensures added: err == nil ==> wfTable(s) && len(s.leases) == old(len(s.leases)) + 1 && s.leases[len(s.leases) - 1] == l && (l.IP in s.ipIndex) && s.ipIndex[l.IP] == l
 //@   ensures others-kept: err == nil ==> (forall k int :: {mark(k)} 0 <= k && k < old(len(s.leases)) ==> s.leases[k] == old(s.leases[k]))
 //@   ensures failed-unchanged: err != nil ==> s.leases == old(s.leases) && wfTable(s) && !(l.IP in s.ipIndex)
+//@   ensures still-one-lease-per-client: old(macUnique(s)) && old(macAbsent(s, l)) ==> macUnique(s)
+//@   ensures failed-one-lease-per-client: err != nil && old(macUnique(s)) ==> macUnique(s)
 //@   modifies *
 
 // rmLeaseByIndex removes exactly the lease at i (later ones move down by one), its index entries and - for a pool address
@@ -121,9 +149,10 @@ package dhcpd
 //@   ensures r-backed: i < old(len(s.leases)) ==> backed(s)
 //@   ensures removed: i < old(len(s.leases)) ==> wfTable(s) && len(s.leases) == old(len(s.leases)) - 1 && !(old(s.leases[i].IP) in s.ipIndex)
 //@   ensures index-only-shrinks: forall a netip.Addr :: (a in s.ipIndex) ==> old(a in s.ipIndex) && s.ipIndex[a] == old(s.ipIndex[a])
-//@   modifies s.leases, elems(s.leases), entries(s.hostsIndex), entries(s.ipIndex), bits, lastOff, lastOffOK
+//@   ensures r-macs: old(macUnique(s)) ==> macUnique(s)
+//@   ghost at return: lastRm = i
+//@   modifies s.leases, elems(s.leases), entries(s.hostsIndex), entries(s.ipIndex), bits, lastOff, lastOffOK, lastRm
 
-//@ define macEq(a *dhcpsvc.Lease, b *dhcpsvc.Lease) bool = bytes.Equal(a.HWAddr, b.HWAddr)
 // rmDynamicLease evicts every dynamic lease that holds the address or belongs to the client of the new lease; it fails
 // (changing at most host names) if a static lease does.
 //@ func (s *v4Server) rmDynamicLease(lease *dhcpsvc.Lease) (err error)
@@ -132,12 +161,15 @@ package dhcpd
 //@   requires wfTable(s)
 //@   ensures table-ok: wfTable(s)
 //@   ensures evicted: err == nil ==> (forall k int :: {mark(k)} 0 <= k && k < len(s.leases) ==> !macEq(s.leases[k], lease) && s.leases[k].IP != lease.IP)
+//@   ensures macs-kept: old(macUnique(s)) ==> macUnique(s)
+//@   ensures client-has-no-lease: err == nil ==> macAbsent(s, lease)
 //@   modifies *
 //@   loop 1 invariant 0 <= i && i <= len(s.leases) && held(s.leasesLock) && lease.IP == old(lease.IP) && lease.HWAddr == old(lease.HWAddr)
 //@   loop 1 invariant tableMaps(s)
 //@   loop 1 invariant noDup(s)
 //@   loop 1 invariant indexed(s)
 //@   loop 1 invariant backed(s)
+//@   loop 1 invariant old(macUnique(s)) ==> macUnique(s)
 //@   loop 1 invariant forall k int :: {mark(k)} 0 <= k && k < i ==> !macEq(s.leases[k], lease) && s.leases[k].IP != lease.IP
 
 //@ func (s *v4Server) rmLease(lease *dhcpsvc.Lease) (err error)
@@ -147,7 +179,13 @@ package dhcpd
 //@   ensures table-ok: wfTable(s)
 //@   ensures removed: err == nil && old(len(s.leases)) > 0 ==> !(lease.IP in s.ipIndex) && len(s.leases) == old(len(s.leases)) - 1
 //@   ensures failed-unchanged: err != nil ==> s.leases == old(s.leases) && len(s.leases) == old(len(s.leases))
-//@   modifies s.leases, elems(s.leases), entries(s.hostsIndex), entries(s.ipIndex), bits, lastOff, lastOffOK
+//@   ensures removed-row: err == nil && old(len(s.leases)) > 0 ==> 0 <= lastRm && lastRm < old(len(s.leases))
+//@   ensures removed-row-ip: err == nil && old(len(s.leases)) > 0 ==> old(s.leases[cur(lastRm)].IP) == lease.IP
+//@   ensures before-kept: err == nil && old(len(s.leases)) > 0 ==> (forall k int :: {mark(k)} 0 <= k && k < lastRm ==> s.leases[k] == old(s.leases[k]))
+//@   ensures after-shifted: err == nil && old(len(s.leases)) > 0 ==> (forall k int :: {mark(k)} lastRm <= k && k < len(s.leases) ==> s.leases[k] == old(s.leases[k + 1]))
+//@   ensures index-only-shrinks: forall a netip.Addr :: (a in s.ipIndex) ==> old(a in s.ipIndex) && s.ipIndex[a] == old(s.ipIndex[a])
+//@   ensures macs-kept: old(macUnique(s)) ==> macUnique(s)
+//@   modifies s.leases, elems(s.leases), entries(s.hostsIndex), entries(s.ipIndex), bits, lastOff, lastOffOK, lastRm
 //@   loop 1 invariant wfTable(s) && s.leases == old(s.leases) && held(s.leasesLock)
 
 // A reservation is added only after every conflicting dynamic lease is gone, so it never shares its address.
@@ -155,6 +193,7 @@ package dhcpd
 //@   property C10
 //@   requires !held(s.leasesLock)
 //@   requires wfTable(s)
+//@   ensures one-lease-per-client: old(macUnique(s)) ==> macUnique(s)
 //@   ensures t1: tableMaps(s)
 //@   ensures t2: indexed(s)
 //@   ensures t3: noDup(s)
@@ -163,6 +202,21 @@ package dhcpd
 //@   ensures added: err == nil ==> (l.IP in s.ipIndex) && s.ipIndex[l.IP] == l
 //@   modifies *
 
+// The change notification (server.onNotify: stores the database, informs the DNS side) reads the table and never
+// changes it (assumed for the function value stored in the field).
+//@ func (fieldcall) V4ServerConf_notify(flags uint32)
+//@   modifies nothing
+// Moving a reservation: the client's previous lease goes, the new one is added only to an address that is free or was
+// the client's own, so afterwards no address and no client has two leases.
+//@ func (s *v4Server) UpdateStaticLease(l *dhcpsvc.Lease) (err error)
+//@   property C10
+//@   requires !held(s.leasesLock)
+//@   requires wfTable(s)
+//@   requires macUnique(s)
+//@   requires new-object: forall k int :: {mark(k)} 0 <= k && k < len(s.leases) ==> s.leases[k] != l
+//@   ensures table-ok: wfTable(s)
+//@   ensures one-lease-per-client: macUnique(s)
+//@   modifies *
 
 // Restoring the table (start-up / restart): the host name of a reservation comes back exactly as stored - only dynamic
 // leases get their host names re-validated.  (Only this call-site clause is proved for ResetLeases; its use of addLease
